@@ -16,8 +16,8 @@ ID = "C20"
 CASES = {"quick": 3000, "thorough": 40000}
 FLOOR = {"quick": 2500, "thorough": 35000}
 FLOOR_COUNTERS = {
-    "quick": {"tiny_regulariser_cases": 150, "lpr_values_judged": 20000, "cpr_values_judged": 8000, "rank_deficient_cases": 250, "single_env_structures": 1500, "containers_reused_with_other_contents": 700, "block3d_inputs": 700, "integer_typed_structures": 800, "features_absent_from_the_training_set": 200, "alpha_given_as_a_shared_array": 800, "rejected_calls_in_the_history": 900},
-    "thorough": {"tiny_regulariser_cases": 2000, "lpr_values_judged": 280000, "cpr_values_judged": 110000, "rank_deficient_cases": 3500, "single_env_structures": 20000, "containers_reused_with_other_contents": 10000, "block3d_inputs": 10000, "integer_typed_structures": 11000, "features_absent_from_the_training_set": 3000, "alpha_given_as_a_shared_array": 10000, "rejected_calls_in_the_history": 12000},
+    "quick": {"training_environments_regrouped_into_as_many_structures": 60, "tiny_regulariser_cases": 150, "lpr_values_judged": 20000, "cpr_values_judged": 8000, "rank_deficient_cases": 250, "single_env_structures": 1500, "containers_reused_with_other_contents": 700, "block3d_inputs": 700, "integer_typed_structures": 800, "features_absent_from_the_training_set": 200, "alpha_given_as_a_shared_array": 800, "rejected_calls_in_the_history": 900},
+    "thorough": {"training_environments_regrouped_into_as_many_structures": 900, "tiny_regulariser_cases": 2000, "lpr_values_judged": 280000, "cpr_values_judged": 110000, "rank_deficient_cases": 3500, "single_env_structures": 20000, "containers_reused_with_other_contents": 10000, "block3d_inputs": 10000, "integer_typed_structures": 11000, "features_absent_from_the_training_set": 3000, "alpha_given_as_a_shared_array": 10000, "rejected_calls_in_the_history": 12000},
 }
 RULE = (
     "case = 1-15 training and 1-8 test structures of 1-8 environments (incl. single-environment structures), feature "
@@ -59,9 +59,24 @@ def gen(rng, tier, index):
         for x in Xtr:
             x[:, col] = 0
     Xte = [x.copy() for x in Xtr[: min(nte, ntr)]] if form == "block3d_shared" else strucs(nte, dts[1])
+    regrouped = None
+    if form in ("fresh", "reused") and ntr >= 2 and rng.random() < 0.2:
+        # the test set is made of the training environments themselves, in the same order: the same structures, the
+        # same environments cut into the same number of differently sized structures, or into another number of them
+        allenv = np.vstack([np.asarray(x) for x in Xtr])
+        if len(allenv) > ntr:
+            regrouped = gens.pick(rng, ("same_count", "same_count", "identical", "other_count"))
+            if regrouped == "identical":
+                Xte = [np.array(x, copy=True) for x in Xtr]
+            else:
+                kk = ntr if regrouped == "same_count" else int(rng.integers(1, min(len(allenv), 9) + 1))
+                cuts_ = np.sort(rng.choice(np.arange(1, len(allenv)), size=kk - 1, replace=False))
+                Xte = [np.array(a, copy=True) for a in np.split(allenv, cuts_)]
+            dts[1] = dts[0]
     return {
         "Xtr": Xtr,
         "Xte": Xte,
+        "regrouped": regrouped,
         "form": form,
         "unseen": bool(unseen),
         "alpha_array": gens.pick(rng, (None, None, None, "0d", "1d")),
@@ -160,6 +175,10 @@ def run(case, j):
         j.note("integer_typed_structures")
     if case.get("unseen"):
         j.note("features_absent_from_the_training_set")
+    if case.get("regrouped"):
+        j.note("test_sets_made_of_the_training_environments")
+        if case["regrouped"] == "same_count":
+            j.note("training_environments_regrouped_into_as_many_structures")
     alpha_value = alpha
     if case.get("alpha_array"):
         alpha = np.array([alpha_value])[0:1].reshape(()) if case["alpha_array"] == "0d" else np.array([alpha_value])  # ONE array object for every call
